@@ -90,10 +90,14 @@ def refreshBounded (refreshingMap : List (Sc × Slot)) (refs : List RefSt) : Boo
 
 /-- C03.2 a pick may add a connection only when every READY channel of its picker is at or above
     the watermark, the pool is below maxSize and nothing is idle or connecting -/
-def growthAllowed (v : ImplView) (wm max : Nat) (ready : List Slot) : Bool :=
+def growthAllowed (v : ImplView) (wm max : Nat) (ready : List Slot) (reported : List (Sc × CState)) : Bool :=
   (ready.all fun j => match v.refs[j]? with | some r => r.streamsCnt ≥ (wm : Int) | none => false) &&
   v.scRefs.length < max &&
-  !(v.scStates.any fun p => p.2 == .idle || p.2 == .connecting)
+  !(v.scStates.any fun p => p.2 == .idle || p.2 == .connecting) &&
+  -- judged by what gRPC last *reported* for the pool's connections, not only by the balancer's table
+  !(v.scRefs.any fun p => match lookup reported p.1 with
+      | some st => st == .idle || st == .connecting
+      | none => true)
 
 /-! ### C01 / C08: affinity and fallback -/
 
@@ -177,6 +181,8 @@ structure MonState where
   nBind : Nat := 0                          -- round-robin BIND picks so far
   removedOnce : List Sc := []
   waiting : List (Nat × Slot × Loc × CtxKind × Option Int) := []
+  failN : Nat := 0                          -- factory failures the harness has injected and not yet spent
+  reported : List (Sc × CState) := []       -- what gRPC last reported for each connection (new ones: Idle)
   deriving Inhabited
 
 def MonState.start (c : Cfg) : MonState := { cfg := c }
@@ -224,14 +230,27 @@ def MonState.observe (m : MonState) (op : Op) (evs : List String) (post : Option
     else none
   for (sc, a) in newScs ++ upds do
     m := { m with scAddrs := insert m.scAddrs sc a }
+  for (sc, _) in newScs do
+    m := { m with reported := insert m.reported sc .idle }
   m := { m with pubs := m.pubs ++ states }
+  -- connection creations that failed: with a non-empty resolved list only an injected factory failure
+  -- can be the reason (the fake ClientConn, like gRPC, also rejects an empty address list)
+  let injectedBefore := m.failN
+  let nFail := (evs.filter (· == "newfail")).length
+  let addrsInForce := match op with | .ccs ver => ver | _ => m.addrs
+  if addrsInForce != 0 then
+    if nFail > m.failN then fails := fails ++ [("C20", "new_conn_uses_resolved_addrs")]
+    m := { m with failN := m.failN - nFail }
+  match op with
+  | .factory n => m := { m with failN := n }
+  | _ => pure ()
   match op with
   | .ccs ver =>
     m := { m with addrs := ver }
     if !m.started then
       m := { m with started := true }
       -- C03.1 after the first resolver update with a working factory: exactly max(1,minSize) channels
-      if ver != 0 && !evs.contains "newfail" then
+      if ver != 0 && injectedBefore == 0 then
         match post with
         | some v => if v.scRefs.length != c.min then fails := fails ++ [("C03", "initial_size")]
         | none => pure ()
@@ -255,6 +274,14 @@ def MonState.observe (m : MonState) (op : Op) (evs : List String) (post : Option
         fails := fails ++ [("C20", "resolver_error_identity")]
     | _, _ => pure ()
   | .scs sc st _ =>
+    m := { m with reported := if st == .shutdown then erase m.reported sc else insert m.reported sc st }
+    -- C04: the balancer's state table records, for every pool connection, the state last reported
+    match post with
+    | some pv =>
+      if !m.shutdownSeen && !(st == .shutdown) then
+        if !(pv.scStates.all fun p => lookup m.reported p.1 == some p.2) then
+          fails := fails ++ [("C04", "state_table_current")]
+    | none => pure ()
     match pre with
     | some v =>
       if st == .shutdown && (lookup v.scRefs sc).isSome then m := { m with shutdownSeen := true }
@@ -336,7 +363,7 @@ def MonState.observe (m : MonState) (op : Op) (evs : List String) (post : Option
         -- growth (C03.2): only a saturated pick below maxSize may add a channel, and it is told to wait
         if !newScs.isEmpty then
           hits := hits ++ ["pool.growth_by_pick"]
-          if !(growthAllowed v c.wm c.max ready && evs.contains "nosc" && placed.isEmpty) || boundSlot.isSome then
+          if !(growthAllowed v c.wm c.max ready m.reported && evs.contains "nosc" && placed.isEmpty) || boundSlot.isSome then
             fails := fails ++ [("C03", "growth_only_when_saturated")]
         match placed.head? with
         | some sc =>
@@ -482,6 +509,18 @@ def MonState.observe (m : MonState) (op : Op) (evs : List String) (post : Option
     | none => pure ()
     for (st, p) in states do
       if (p == .errTF) != (st == .tf) then fails := fails ++ [("C04", "err_picker_iff_tf")]
+      -- a picker published now lists exactly the slots whose connection gRPC last reported READY
+      -- (judged by the reports themselves, not by the balancer's own table)
+      match p with
+      | .gcp l =>
+        if !m.shutdownSeen then
+          let readyByReport := (List.range v.refs.length).filter fun slot =>
+            match v.refs[slot]? with
+            | some r => (lookup v.scRefs r.subConn).isSome && lookup m.reported r.subConn == some .ready
+            | none => false
+          if l.mergeSort (· ≤ ·) != readyByReport then
+            fails := fails ++ [("C02", "picker_lists_ready_channels"), ("C04", "picker_ready_list")]
+      | _ => pure ()
     if !streamsExact v.refs (m.calls.map (·.slot)) then fails := fails ++ [("C02", "streams_exact")]
     if m.calls.isEmpty && !(v.refs.all fun r => r.streamsCnt == 0) then fails := fails ++ [("C02", "streams_zero_when_idle")]
     if !affinityRefines v.affinity v.refs m.bound then fails := fails ++ [("C01", "affinity_refines")]
